@@ -18,7 +18,7 @@ func init() {
 	register(&Rule{ID: "R-PAIRING", Min: 12, Run: rulePairing,
 		Doc: "in every basic block the writes to X.Samples and X.SampleIDs of one step vector X come in pairs of the same shape (append one / append all / reslice / literal of equal length / element store): IDs and values keep equal length"})
 	register(&Rule{ID: "R-ONEPERSTEP", Min: 9, Run: ruleOnePerStep,
-		Doc: "every append of a step vector to a batch is nested in exactly one loop (counted through the helpers that receive the batch), or is the `if len(batch) <= step` idiom of the selectors: one step vector per evaluation step"})
+		Doc: "every append of a step vector to a batch is nested in exactly one loop (counted through the helpers that receive the batch), or is the `if len(batch) <= step` idiom of the selectors (also inside a helper that tests its own parameters, when every caller hands over the counter of a loop around the call and assigns the result back): one step vector per evaluation step"})
 	register(&Rule{ID: "R-SENTINEL", Min: 2, Run: ruleSentinel,
 		Doc: "every call of a FunctionCall value whose reachable kernels can return InvalidSample compares the result with the sentinel and uses its value only on the valid branch"})
 	register(&Rule{ID: "R-POINTFIELDS", Min: 20, Run: rulePointFields,
@@ -296,6 +296,10 @@ func ruleOnePerStep(p *core.Program) []core.Obligation {
 			own := depthOf(fn, b)
 			up, ok := callerDepth(fn, map[*ssa.Function]bool{})
 			if !ok {
+				if paramLenGuard(p, call) {
+					obs = append(obs, core.Ob(rule, key, p.Pos(ins.Pos()), core.FuncName(fn), core.Held, "helper guarded by `len(batch) <= step index`; every caller hands over the step index of a loop around the call"))
+					return
+				}
 				obs = append(obs, core.Ob(rule, key, p.Pos(ins.Pos()), core.FuncName(fn), core.Undecided, "helper is called from different loop depths or used as a value"))
 				return
 			}
@@ -353,6 +357,81 @@ func ruleOnePerStep(p *core.Program) []core.Obligation {
 		})
 	}
 	return obs
+}
+
+// paramLenGuard: the append of a helper is control-dependent on `len(batch) <= idx` where batch and idx are
+// parameters of the helper, and at every call site idx is the counter of a loop around the call and batch is
+// the loop-carried batch the result is assigned back to.
+func paramLenGuard(p *core.Program, call *ssa.Call) bool {
+	b := call.Block()
+	fn := b.Parent()
+	if fn.Parent() != nil || len(b.Preds) != 1 {
+		return false
+	}
+	iff := core.IfOf(b.Preds[0])
+	if iff == nil || b.Preds[0].Succs[0] != b {
+		return false
+	}
+	bo, ok := iff.Cond.(*ssa.BinOp)
+	if !ok || (bo.Op != token.LEQ && bo.Op != token.EQL) {
+		return false
+	}
+	idx, ok := bo.Y.(*ssa.Parameter)
+	if !ok {
+		return false
+	}
+	lc, ok := bo.X.(*ssa.Call)
+	if !ok {
+		return false
+	}
+	if bi, ok := lc.Call.Value.(*ssa.Builtin); !ok || bi.Name() != "len" {
+		return false
+	}
+	batch, ok := lc.Call.Args[0].(*ssa.Parameter)
+	if !ok || call.Call.Args[0] != batch {
+		return false
+	}
+	pos := func(q *ssa.Parameter) int {
+		for i, x := range fn.Params {
+			if x == q {
+				return i
+			}
+		}
+		return -1
+	}
+	ib, ii := pos(batch), pos(idx)
+	sites := p.CallSitesOf(fn)
+	if len(sites) == 0 {
+		return false
+	}
+	for _, cs := range sites {
+		if cs == nil || cs.IsInvoke() || len(cs.Args) != len(fn.Params) {
+			return false
+		}
+		var at *ssa.Call
+		for _, f2 := range p.Funcs {
+			core.EachInstr(f2, func(_ *ssa.BasicBlock, _ int, ins ssa.Instruction) {
+				if c, ok := ins.(*ssa.Call); ok && &c.Call == cs {
+					at = c
+				}
+			})
+		}
+		if at == nil {
+			return false
+		}
+		ph, ok := cs.Args[ii].(*ssa.Phi)
+		if !ok {
+			return false
+		}
+		if body := core.LoopBodies(at.Parent())[ph.Block()]; body == nil || !body[at.Block()] {
+			return false
+		}
+		// the result goes back into the batch that was handed over
+		if !core.PhiClosure(cs.Args[ib])[at] {
+			return false
+		}
+	}
+	return true
 }
 
 // lenGuardIdiom: the append is control-dependent on `len(batch) <= idx` (batch being the appended slice).
